@@ -816,3 +816,23 @@ MUTANTS += [
  dict(name='c05-benign-affine-equal-rewritten', prop='C05', benign=True, expect='',
       edits=[('include/bls12_381/curve.hpp', 'return (a.infinity == b.infinity) && (a.infinity || (x_equal && y_equal));', 'return a.infinity ? b.infinity : (!b.infinity && x_equal && y_equal);')]),
 ]
+# ---- R-POLY/line (C01)
+MUTANTS += [
+ dict(name='c01-line-doubling-no-negate-b', prop='C01', expect='line|doubling|coefficients',
+      edits=[('src/bls12_381/pairing.cpp', '        tmp3.multiply2(tmp3);\n        tmp3.negate(tmp3);\n', '        tmp3.multiply2(tmp3);\n')]),
+ dict(name='c01-line-doubling-point-y-8Y4-to-4Y4', prop='C01', expect='line|doubling|point',
+      edits=[('src/bls12_381/pairing.cpp', '        tmp2.multiply2(tmp2);\n        tmp2.multiply2(tmp2);\n        tmp2.multiply2(tmp2);\n', '        tmp2.multiply2(tmp2);\n        tmp2.multiply2(tmp2);\n')]),
+ dict(name='c01-line-addition-c-uses-y-not-x', prop='C01', expect='line|addition|coefficients',
+      edits=[('src/bls12_381/pairing.cpp', '        t9.multiply(t6, g2.x);', '        t9.multiply(t6, g2.y);')]),
+ dict(name='c01-line-ell-swaps-xP-yP', prop='C01', expect='line|ell',
+      edits=[('src/bls12_381/pairing.cpp', '        c0.c0.multiply(coeffs.a.c0, g1.y);\n        c0.c1.multiply(coeffs.a.c1, g1.y);', '        c0.c0.multiply(coeffs.a.c0, g1.x);\n        c0.c1.multiply(coeffs.a.c1, g1.y);')]),
+ dict(name='c01-line-ell-c1-c4-swapped', prop='C01', expect='line|ell',
+      edits=[('src/bls12_381/pairing.cpp', 'f.multiply_by_c014(f, coeffs.c, c1, c0);', 'f.multiply_by_c014(f, coeffs.c, c0, c1);')]),
+ dict(name='c01-benign-line-coefficients-scaled-by-two', prop='C01', benign=True, expect='',
+      edits=[('src/bls12_381/pairing.cpp', '        // Calculate result.a\n        tmp0.multiply(r.z, zsquared);\n        tmp0.multiply2(tmp0);\n',
+              '        // Calculate result.a\n        tmp0.multiply(r.z, zsquared);\n        tmp0.multiply2(tmp0);\n        tmp0.multiply2(tmp0);\n        tmp3.multiply2(tmp3);\n        tmp6.multiply2(tmp6);\n')]),
+ dict(name='seed-C01-multiply8-top-word-estimate', prop='C01', patch='seeded/C01-multiply8-top-word-quotient/patch.diff', expect='R-FIELDLAYER'),
+ dict(name='seed-C01-multiply8-c02', prop='C02', patch='seeded/C01-multiply8-top-word-quotient/patch.diff', expect='R-FIELDLAYER'),
+ dict(name='seed-C04-lazy-add-two-sites', prop='C04', patch='seeded/C04-lazy-reduction-two-sites/patch.diff', expect='R-FIELDLAYER'),
+ dict(name='seed-C06-g1-128bit-via-endomorphism', prop='C06', patch='seeded/C06-g1-128bit-via-endomorphism/patch.diff', expect='R-DISPATCH'),
+]
